@@ -267,3 +267,68 @@ Theorem emit_files_perm_invariant : forall A (g : A -> list file) l l',
 Proof.
   intros. unfold emit_files, path_sort. apply sort_by_key_perm_invariant; auto. now apply append_each_perm.
 Qed.
+
+(* ------------------------------------------------------------------ sorting by a structured key *)
+Lemma nodup_key_inj : forall A K (key : A -> K) l a b, NoDup (map key l) -> In a l -> In b l -> key a = key b -> a = b.
+Proof.
+  induction l as [|x l IH]; simpl; intros a b Hnd Ha Hb Hk; [contradiction|].
+  inversion Hnd; subst. destruct Ha as [->|Ha], Hb as [->|Hb]; auto.
+  - exfalso. apply H1. rewrite Hk. now apply in_map.
+  - exfalso. apply H1. rewrite <- Hk. now apply in_map.
+Qed.
+
+Theorem sort_by_generic_key_perm_invariant : forall A K (key : A -> K) (kleb : K -> K -> bool),
+  (forall a b, kleb a b = true \/ kleb b a = true) ->
+  (forall a b c, kleb a b = true -> kleb b c = true -> kleb a c = true) ->
+  (forall a b, kleb a b = true -> kleb b a = true -> a = b) ->
+  forall l l', NoDup (map key l) -> Permutation l l' ->
+  isort (fun a b => kleb (key a) (key b)) l = isort (fun a b => kleb (key a) (key b)) l'.
+Proof.
+  intros A K key kleb Ht Htr Ha l l' Hnd Hp. apply isort_perm_invariant_in; auto.
+  - intros a b c. apply Htr.
+  - intros a b Hia Hib H1 H2. eapply nodup_key_inj; eauto.
+Qed.
+
+(* the lexicographic order on (package, object, field) *)
+Lemma cmp3_antisym : forall a b, cmp3 b a = CompOpp (cmp3 a b).
+Proof.
+  intros [[p1 o1] f1] [[p2 o2] f2]. simpl.
+  rewrite (String.compare_antisym p2 p1), (String.compare_antisym o2 o1), (String.compare_antisym f2 f1).
+  destruct (String.compare p1 p2); simpl; auto. destruct (String.compare o1 o2); simpl; auto.
+Qed.
+Lemma cmp3_eq : forall a b, cmp3 a b = Eq -> a = b.
+Proof.
+  intros [[p1 o1] f1] [[p2 o2] f2]. simpl.
+  destruct (String.compare p1 p2) eqn:E1; try discriminate.
+  destruct (String.compare o1 o2) eqn:E2; try discriminate. intros E3.
+  apply String.compare_eq_iff in E1, E2, E3. congruence.
+Qed.
+Lemma cmp3_refl : forall a, cmp3 a a = Eq.
+Proof. intros [[p o] f]. simpl. now rewrite !string_compare_refl. Qed.
+Lemma cmp3_lt_trans : forall a b c, cmp3 a b = Lt -> cmp3 b c = Lt -> cmp3 a c = Lt.
+Proof.
+  intros [[p1 o1] f1] [[p2 o2] f2] [[p3 o3] f3]. simpl.
+  destruct (String.compare p1 p2) eqn:A1; try discriminate; destruct (String.compare p2 p3) eqn:A2; try discriminate;
+    try (apply String.compare_eq_iff in A1; subst p2); try (apply String.compare_eq_iff in A2; subst p3);
+    rewrite ?A1, ?A2, ?string_compare_refl, ?(string_compare_lt_trans _ _ _ A1 A2); auto.
+  destruct (String.compare o1 o2) eqn:B1; try discriminate; destruct (String.compare o2 o3) eqn:B2; try discriminate;
+    try (apply String.compare_eq_iff in B1; subst o2); try (apply String.compare_eq_iff in B2; subst o3);
+    rewrite ?B1, ?B2, ?string_compare_refl, ?(string_compare_lt_trans _ _ _ B1 B2); auto.
+  apply string_compare_lt_trans.
+Qed.
+Lemma leb3_total : forall a b, leb3 a b = true \/ leb3 b a = true.
+Proof. intros a b. unfold leb3. rewrite (cmp3_antisym a b). destruct (cmp3 a b); simpl; auto. Qed.
+Lemma leb3_antisym : forall a b, leb3 a b = true -> leb3 b a = true -> a = b.
+Proof.
+  intros a b. unfold leb3. rewrite (cmp3_antisym a b). destruct (cmp3 a b) eqn:E; simpl; try discriminate.
+  intros _ _. now apply cmp3_eq.
+Qed.
+Lemma leb3_trans : forall a b c, leb3 a b = true -> leb3 b c = true -> leb3 a c = true.
+Proof.
+  intros a b c. unfold leb3.
+  destruct (cmp3 a b) eqn:E1; try discriminate; destruct (cmp3 b c) eqn:E2; try discriminate; intros _ _.
+  - apply cmp3_eq in E1, E2. subst. now rewrite cmp3_refl.
+  - apply cmp3_eq in E1. subst. now rewrite E2.
+  - apply cmp3_eq in E2. subst. now rewrite E1.
+  - now rewrite (cmp3_lt_trans _ _ _ E1 E2).
+Qed.
